@@ -107,7 +107,7 @@ def build_frames(c):
     pos, neg = ENCODINGS[c["encoding"]]
     frames, rid = [], 0
     for n_spec in c["n_spec"]:
-        rows = []
+        rows, plain = [], []
         for s in range(n_spec):
             for k in range(c["dup"]):
                 tgt = bool(rng.random() < c.get("p_target", 0.5)) if c.get("p_target") else (s + k) % 2 == 0
@@ -115,10 +115,18 @@ def build_frames(c):
                 f0 = float(rng.normal(4.0 if good else 0.0, 1.0))
                 if c.get("ties") and k > 0 and rng.random() < 0.3:
                     f0 = rows[-1]["f0"] * (-1.0 if c["lower"] else 1.0)     # equal scores inside one spectrum
+                if tgt and not good:
+                    plain.append(len(rows))
                 rows.append(dict(SpecId=rid, Label=pos if tgt else neg, ScanNr=s, ExpMass=100.0 + s,
                                  f0=-f0 if c["lower"] else f0, f1=float(rng.normal()), f2=rid,
                                  Peptide="PEP%dK" % rid, Proteins="prot%d" % (s % 4)))
                 rid += 1
+        # wrong-end outliers: genuine targets without a good score are moved beyond every decoy at the BAD end of f0,
+        # spread evenly over the file, so that f0 ranked the wrong way still accepts a few PSMs (no random draw is used:
+        # cases without the option are unchanged)
+        n_out = min(int(c.get("outliers", 0)), len(plain))
+        for j in range(n_out):
+            rows[plain[(j * len(plain)) // n_out]]["f0"] = (20.0 + j) * (1.0 if c["lower"] else -1.0)
         df = pd.DataFrame(rows)
         if c["encoding"] == "bool":
             df["Label"] = df["Label"].astype(bool)
@@ -190,6 +198,24 @@ def run_brew_case(c, d, want_result=False):
                 table[(i, f, dsc)] = n_accepted(col, t_tr, c["train_fdr"], dsc)
     B = max(table.values())
     best_pairs = set((f, dsc) for (i, f, dsc), v in table.items() if v == B)
+    # the count each fold's model recorded for its starting feature (brew compares the largest of them with what the
+    # learned scores accept): it has to be the independently counted number for the feature and direction it names
+    who = "direction" if c.get("direction") else "auto"
+    for i, m in enumerate(models if len(models) == c["folds"] else []):
+        i = int(getattr(m, "fold", i + 1)) - 1
+        bf, fp, dsc = getattr(m, "best_feat", None), getattr(m, "feat_pass", None), getattr(m, "desc", None)
+        if (i, bf, bool(dsc)) not in table or fp is None:
+            bad.append((who + "-fold-model-best-feat-not-a-candidate-feature", "fold %d: best_feat=%r desc=%r feat_pass=%r"
+                        % (i, bf, dsc, fp)))
+        elif int(fp) != table[(i, bf, bool(dsc))]:
+            bad.append((who + "-fold-model-feat-pass-not-count-of-chosen-direction", "fold %d: the model recorded feat_pass=%d "
+                        "for %s ranked %s, which accepts %d targets at %g on the fold's training rows (the other way: %d)"
+                        % (i, int(fp), bf, "high-to-low" if dsc else "low-to-high", table[(i, bf, bool(dsc))],
+                           c["train_fdr"], table[(i, bf, not bool(dsc))])))
+        elif int(fp) < max(v for (j, f, d2), v in table.items() if j == i):
+            bad.append((who + "-fold-model-start-not-best-direction", "fold %d: the model started from %s desc=%s with %d "
+                        "targets, the best candidate accepts %d" % (i, bf, dsc, int(fp),
+                                                                   max(v for (j, f, d2), v in table.items() if j == i))))
     # (a) fallback: every file's scores are the column of one feature (text files: up to the parser's last digit)
     fb = [f for f in FEATS if all(np.allclose(s, fr[f].to_numpy(dtype=float), rtol=1e-12, atol=1e-12)
                                   for s, fr in zip(flat, frames))]
@@ -241,6 +267,33 @@ def gen_brew_cases(tier, seed):
         if r >= 0.9:
             c["override"] = True
         cases.append(c)
+    cases += gen_outlier_brew_cases(tier, seed)
+    return cases
+
+
+N_OUTLIER_BREW = {"quick": 24, "thorough": 360}
+
+
+def gen_outlier_brew_cases(tier, seed):
+    """Model(direction='f0') (2 of 3; else automatic choice) on data where a few genuine targets sit beyond every decoy
+    at the BAD end of f0, enough of them for f0 ranked the wrong way to accept some PSMs on the training rows of a fold.
+    The memorising estimator passes training and ranks the held-out rows the wrong way (it accepts about the outliers),
+    the others reproduce or invert the feature. Own random stream: the cases above do not depend on these."""
+    rng = np.random.default_rng([seed, 7004])
+    cases = []
+    for k in range(N_OUTLIER_BREW[tier]):
+        train_fdr = float([0.5, 0.25][(k // 4) % 2])
+        folds = int(rng.integers(2, 4))
+        need = int(np.ceil(folds / ((folds - 1) * train_fdr)))      # wrong-way acceptance on (folds-1)/folds of the rows
+        c = dict(n_spec=[int(rng.integers(50, 90)) for _ in range(1 + (k // 8) % 2)], dup=2,
+                 data_seed=int(rng.integers(0, 10 ** 6)), encoding=list(ENCODINGS)[k % 3], lower=bool(k % 2 == 0),
+                 fmt=["parquet", "tab"][(k // 2) % 2], est=["memo-proba", "good-dec", "memo-proba", "inverted-dec",
+                                                           "memo-proba", "good-proba"][k % 6],
+                 train_fdr=train_fdr, test_fdr=float(rng.choice([0.125, 0.25, 0.5, 0.5])), max_iter=int(rng.integers(1, 3)),
+                 folds=folds, rng=int(rng.integers(0, 10 ** 6)), outliers=need + int(rng.integers(1, 5)))
+        if k % 3:
+            c["direction"] = "f0"
+        cases.append(c)
     return cases
 
 
@@ -251,8 +304,14 @@ def check_fallback(tier, seed):
                "(constant decision_function, constant predict_proba, inverted, memorising (inverted on unseen rows), two that "
                "reproduce the best feature) on %s dataset(s) of 30-60 spectra x 2 PSMs, 3 folds, train_fdr=test_fdr=0.25; + %d "
                "random configurations with seed %d: 1-3 files of 20-49 spectra x 1-3 PSMs, folds 2-4, train/test fdr in "
-               "{0.125,0.25,0.5}, 25%% target-rich data, 25%% Model(direction='f0'), 10%% override=True; + 1 fixed seed"
-               % ("1" if tier == "quick" else "12", 40 if tier == "quick" else 600, seed),
+               "{0.125,0.25,0.5}, 25%% target-rich data, 25%% Model(direction='f0'), 10%% override=True; + 1 fixed seed; "
+               "+ %d configurations (own stream of seed %d) with wrong-end outliers: per file 1-2 files of 50-89 spectra x 2 "
+               "PSMs in which enough non-good targets are moved beyond every decoy at the bad end of f0 for the wrongly "
+               "ranked f0 to accept PSMs on a fold's training rows, 2 of 3 with Model(direction='f0'), higher/lower-is-better "
+               "alternately, memorising/reproducing/inverted estimators, folds 2-3, train_fdr in {0.25,0.5}, test_fdr in "
+               "{0.125,0.25,0.5}. In every returned run each fold model's feat_pass/best_feat/desc is compared with the "
+               "independent count on that fold's training rows"
+               % ("1" if tier == "quick" else "12", 40 if tier == "quick" else 600, seed, N_OUTLIER_BREW[tier], seed),
                "non-trivial = brew returned and either fell back to a feature column or returned model scores that were "
                "compared with the best feature's count on the training folds; loud failures (documented RuntimeErrors) and "
                "override=True runs are evaluations only")
@@ -276,6 +335,191 @@ def report(ck, found):
             best[cid] = (size, what, inp)
     for cid in sorted(best, key=lambda k: (k in EXPECTED, k)):
         ck.violation(cid, best[cid][1], best[cid][2])
+
+
+# ------------------------------------------------------------------------------------------------ starting direction
+class RecordingDec(GoodDec):
+    """reproduces the best feature; remembers the rows (f2 = row id) and the positives of every fit call"""
+    log = []
+
+    def fit(self, X, y):
+        ids = [int(v) for v in np.asarray(X)[:, 2]]
+        RecordingDec.log.append((sorted(ids), sorted(i for i, yy in zip(ids, np.asarray(y).tolist()) if yy == 1)))
+        return super().fit(X, y)
+
+
+START_LOUD = ("No PSMs accepted at train_fdr", "No PSMs found below")
+
+
+def run_start_case(c):
+    """What Model.fit hands on about its starting point (feat_pass, best_feat, desc, the starting labels) against an
+    independent target-decoy count for every candidate (feature, direction). Two routes: _get_starting_labels called
+    directly, and Model.fit (one iteration, the estimator records the rows and positives of the first fit call)."""
+    from mokapot.dataset import LinearPsmDataset
+    from mokapot.model import Model, _get_starting_labels
+    from mokapot.utils import convert_targets_column
+    df = pd.concat(build_frames(c), ignore_index=True)
+    tgt = is_target_col(df["Label"])
+    thr = Fraction(c["train_fdr"])
+    table = {}
+    for f in ([c["direction"]] if c.get("direction") else FEATS):
+        for dsc in (True, False):
+            q = qvalues(df[f].to_numpy(dtype=float), tgt, dsc)
+            lab = np.array([(1 if qq <= thr else 0) if t else -1 for qq, t in zip(q, tgt)])
+            table[(f, dsc)] = (int((lab == 1).sum()), lab)
+    B = max(v[0] for v in table.values())
+    best = sorted(k for k, v in table.items() if v[0] == B)
+    who = "direction" if c.get("direction") else "auto"
+    ids = df["f2"].astype(int).tolist()
+    bad = []
+
+    def dataset():          # the way brew builds a training set
+        data = convert_targets_column(df.copy(), "Label")
+        return LinearPsmDataset(psms=data, target_column="Label", spectrum_columns=["ScanNr", "ExpMass"],
+                                peptide_column="Peptide", protein_column="Proteins", feature_columns=list(FEATS),
+                                scan_column="ScanNr", expmass_column="ExpMass", copy_data=False)
+
+    def judge(route, feat_pass, best_feat, desc, pos_ids, used_ids):
+        key = (best_feat, bool(desc)) if isinstance(best_feat, str) else None
+        if key not in table or desc is None or feat_pass is None:
+            bad.append((who + "-start-best-feat-not-a-candidate-feature", "%s: best_feat=%r desc=%r feat_pass=%r, candidates %s"
+                        % (route, best_feat, desc, feat_pass, sorted(set(k[0] for k in table)))))
+            return
+        n, lab = table[key]
+        other = table[(key[0], not key[1])][0]
+        way = "high-to-low" if key[1] else "low-to-high"
+        if int(feat_pass) != n:
+            bad.append((who + "-start-feat-pass-not-count-of-chosen-direction", "%s: feat_pass=%d is handed on for %s ranked %s, "
+                        "which accepts %d targets at %g (ranked the other way: %d)"
+                        % (route, int(feat_pass), key[0], way, n, c["train_fdr"], other)))
+        if n < B:
+            bad.append((who + "-start-not-best-direction", "%s: starts from %s ranked %s (%d targets at %g) although %s accepts %d"
+                        % (route, key[0], way, n, c["train_fdr"], best, B)))
+        want_pos = sorted(i for i, v in zip(ids, lab) if v == 1)
+        want_used = sorted(i for i, v in zip(ids, lab) if v != 0)
+        if pos_ids != want_pos or used_ids != want_used:
+            bad.append((who + "-start-labels-not-chosen-direction", "%s: %d positive / %d training rows at the start, expected "
+                        "%d / %d (targets with q<=%g by %s ranked %s; all decoys negative)"
+                        % (route, len(pos_ids), len(used_ids), len(want_pos), len(want_used), c["train_fdr"], key[0], way)))
+
+    def refused(route, e):
+        if isinstance(e, ValueError) and ("No decoy PSMs were" in str(e) or "No target PSMs were" in str(e)) \
+                and (tgt.all() or not tgt.any()):
+            return          # a table without decoys / without targets is refused by design
+        if isinstance(e, RuntimeError) and any(t in str(e) for t in START_LOUD):
+            if B > 0:
+                bad.append((who + "-start-refused-though-feature-accepts", "%s: %s, but %s accepts %d targets"
+                            % (route, str(e)[:80], best, B)))
+        else:
+            bad.append(("start-raises-" + type(e).__name__, "%s: %s: %s" % (route, type(e).__name__, str(e)[:200])))
+
+    def model():
+        return Model(RecordingDec(sign=-1.0 if c["lower"] else 1.0), scaler="as-is", train_fdr=c["train_fdr"], max_iter=1,
+                     direction=c.get("direction"), rng=c["rng"])
+
+    # route 1: the helper itself
+    try:
+        labels, feat_pass, best_feat, desc = _get_starting_labels(dataset(), model())
+        labels = np.asarray(labels).ravel()
+        if B == 0:
+            bad.append((who + "-start-accepts-nothing-no-error", "labels: no candidate accepts a target at %g, yet %d positives"
+                        % (c["train_fdr"], int((labels == 1).sum()))))
+        elif len(labels) != len(ids):
+            bad.append(("start-labels-shape", "labels: %d labels for %d PSMs" % (len(labels), len(ids))))
+        else:
+            judge("_get_starting_labels", feat_pass, best_feat, desc, sorted(i for i, v in zip(ids, labels) if v == 1),
+                  sorted(i for i, v in zip(ids, labels) if v != 0))
+    except Exception as e:  # noqa
+        refused("_get_starting_labels", e)
+    # route 2: Model.fit, attributes as brew reads them
+    m = model()
+    RecordingDec.log = []
+    try:
+        try:
+            m.fit(dataset())
+        except RuntimeError as e:
+            if str(e) != "Model performs worse after training.":    # the bookkeeping is in place before training starts
+                raise
+        if B == 0:
+            bad.append((who + "-start-accepts-nothing-no-error", "fit: no candidate accepts a target at %g, yet training ran"
+                        % c["train_fdr"]))
+        elif not RecordingDec.log:
+            bad.append(("start-estimator-never-fitted", "fit: the estimator's fit was not called"))
+        else:
+            judge("Model.fit", getattr(m, "feat_pass", None), getattr(m, "best_feat", None), getattr(m, "desc", None),
+                  RecordingDec.log[0][1], RecordingDec.log[0][0])
+    except Exception as e:  # noqa
+        refused("Model.fit", e)
+    counts = sorted(v[0] for v in table.values())
+    f0 = [table[(f, d)][0] for (f, d) in table if f == "f0"]
+    return dict(compared=B > 0 and counts[0] != counts[-1] and not (tgt.all() or not tgt.any()), both_ways=len(f0) == 2 and min(f0) > 0 and f0[0] != f0[1]), bad
+
+
+N_START = {"quick": (1, 60), "thorough": (8, 1500)}
+
+
+def gen_start_cases(tier, seed):
+    rng = np.random.default_rng([seed, 7005])
+    reps, extra = N_START[tier]
+    cases, k = [], 0
+    for rep in range(reps):
+        for direction in (None, "f0"):
+            for lower in (False, True):
+                for fdr in (0.125, 0.25, 0.5):
+                    for extra_out in (None, 0, 3):      # no outliers / just enough for the wrong way to accept / more
+                        c = dict(n_spec=[int(rng.integers(40, 80))], dup=2, data_seed=int(rng.integers(0, 10 ** 6)),
+                                 encoding=list(ENCODINGS)[k % 3], lower=lower, train_fdr=fdr, rng=int(rng.integers(0, 10 ** 6)))
+                        if direction:
+                            c["direction"] = direction
+                        if extra_out is not None:
+                            c["outliers"] = int(np.ceil(1 / fdr)) + extra_out
+                        cases.append(c)
+                        k += 1
+    for k in range(extra):
+        fdr = float(rng.choice([0.125, 0.25, 0.5]))
+        c = dict(n_spec=[int(rng.integers(15, 60)) for _ in range(int(rng.choice([1, 2])))], dup=int(rng.integers(1, 4)),
+                 data_seed=int(rng.integers(0, 10 ** 6)), encoding=str(rng.choice(list(ENCODINGS))),
+                 lower=bool(rng.random() < 0.5), train_fdr=fdr, rng=int(rng.integers(0, 10 ** 6)),
+                 ties=bool(rng.random() < 0.2))
+        r = rng.random()
+        if r < 0.6:
+            c["direction"] = "f0"
+        elif r < 0.75:
+            c["direction"] = str(rng.choice(["f1", "f2"]))
+        if rng.random() < 0.7:
+            c["outliers"] = int(rng.integers(1, int(np.ceil(1 / fdr)) + 5))     # per file; below 1/fdr: wrong way accepts 0
+        if rng.random() < 0.15:
+            c["p_target"] = 0.8
+        cases.append(c)
+    return cases
+
+
+def check_start(tier, seed):
+    cases = gen_start_cases(tier, seed)
+    reps, extra = N_START[tier]
+    ck = Check("start_direction_bookkeeping", "mokapot.model._get_starting_labels, Model.fit (feat_pass, best_feat, desc, "
+               "starting labels), dataset._find_best_feature/_update_labels",
+               "grid x %d: Model(direction=None / 'f0') x higher/lower-is-better f0 x train_fdr in {0.125,0.25,0.5} x (no outliers / "
+               "ceil(1/fdr) / ceil(1/fdr)+3 non-good targets moved beyond every decoy at the bad end of f0), 40-79 spectra x 2 "
+               "PSMs, label encodings in turn; + %d random configurations (own stream of seed %d): 1-2 tables of 15-59 "
+               "spectra x 1-3 PSMs concatenated, 60%% direction='f0', 15%% direction='f1'/'f2' (noise / row id), 70%% with "
+               "1..ceil(1/fdr)+4 wrong-end outliers per table, 20%% equal scores inside a spectrum, 15%% target-rich; every "
+               "case through two routes (the helper directly; Model.fit with one iteration, scaler as-is, an estimator that "
+               "records its first fit call)" % (reps, extra, seed),
+               "oracle: exact-fraction target-decoy q-values per candidate (feature, direction) on all rows; feat_pass must be "
+               "the count of the (best_feat, desc) handed on, that count must be the largest among the candidates (ties: any), "
+               "the starting labels / first fit call must have exactly the accepted targets positive and the other targets "
+               "left out; a refusal is demanded iff no candidate accepts a target. non-trivial = some candidate accepts and "
+               "the candidates' counts differ")
+    found, both = [], 0
+    for c in cases:
+        info, bad = run_start_case(c)
+        both += bool(info["both_ways"])
+        ck.case(c, nontrivial=info["compared"])
+        found += [(cid, what, c) for cid, what in bad]
+    ck.rule += "; cases in which f0 accepts a different non-zero number of targets in BOTH directions: %d" % both
+    report(ck, found)
+    return ck
 
 
 # ------------------------------------------------------------------------------------------------ direction clause
@@ -431,6 +675,8 @@ def REPLAY(check_name, violation):
             bad = run_brew_case(c, d)[2]
         elif check_name == "confidence_direction":
             bad = run_direction_case(c, d)[1]
+        elif check_name == "start_direction_bookkeeping":
+            bad = run_start_case(c)[1]
         else:
             return {"violated": None, "note": "no replay for %s" % check_name}
     return {"violated": bool(bad), "detail": bad[:3]}
@@ -439,10 +685,15 @@ def REPLAY(check_name, violation):
 if __name__ == "__main__":
     a = args()
     np.random.seed(a.seed)
-    emit([check_fallback(a.tier, a.seed), check_direction(a.tier, a.seed)],
+    emit([check_fallback(a.tier, a.seed), check_start(a.tier, a.seed), check_direction(a.tier, a.seed)],
          ["'the best single feature did during training' is taken as: accepted targets at train_fdr on the training rows "
           "(complement of a fold, fold structure read from OnDiskPsmDataset._split) maximised over features, directions "
           "and folds; with Model(direction=f) only feature f",
+          "the count a model records as feat_pass is what brew later compares with the learned scores, so it has to be the "
+          "number of targets its starting feature accepts at train_fdr in the direction it hands on; where both directions "
+          "of a feature (or two features) accept equally many, either choice is accepted",
+          "fold models are matched to folds by Model.fold (brew sorts them); training rows of fold i = all rows outside "
+          "test fold i of every file (subset_max_train is not used)",
           "train_fdr/test_fdr restricted to dyadic values because mokapot.qvalues.tdc computes FDRs in float32 (C01 matter)",
           "a documented RuntimeError of brew (calibration impossible, no PSM accepted at train_fdr) is a loud failure, "
           "not a silent degradation",
